@@ -499,3 +499,60 @@ func insertAlwaysStores(c *Ctx, r *Report, rule string) {
 }
 
 var _ = types.Typ
+
+// noNestedAcquire: no function calls, while it holds Server.lock, a function that acquires Server.lock: sync.RWMutex
+// is not reentrant, and a read lock taken again while a writer (ShutdownContext) waits between the two blocks for ever.
+func noNestedAcquire(c *Ctx, r *Report, rule string) {
+	r.rule(rule, 1, "no function that holds Server.lock calls a function that acquires it")
+	var all []*ssa.Function
+	for _, f := range c.allFuncs() {
+		all = append(all, withAnon(f)...)
+	}
+	acquires := map[*ssa.Function]bool{}
+	for _, f := range all {
+		allInstrs(f, func(in ssa.Instruction) {
+			if call, ok := in.(*ssa.Call); ok {
+				if op, isOp := lockOp(call, "Server", "lock", nil); isOp && op > 0 {
+					acquires[f] = true
+				}
+			}
+		})
+	}
+	for changed := true; changed; {
+		changed = false
+		for _, f := range all {
+			if acquires[f] {
+				continue
+			}
+			allInstrs(f, func(in ssa.Instruction) {
+				if call, ok := in.(*ssa.Call); ok {
+					if g := call.Call.StaticCallee(); g != nil && acquires[g] {
+						acquires[f] = true
+						changed = true
+					}
+				}
+			})
+		}
+	}
+	n := 0
+	var bad []string
+	for _, f := range all {
+		li := computeLocks(f, "Server", "lock", lkNone)
+		if !li.touches {
+			continue
+		}
+		n++
+		allInstrs(f, func(in ssa.Instruction) {
+			call, ok := in.(*ssa.Call)
+			if !ok {
+				return
+			}
+			g := call.Call.StaticCallee()
+			if g == nil || !acquires[g] || li.at[in] == lkNone {
+				return
+			}
+			bad = append(bad, fmt.Sprintf("%s: %s calls %s, which acquires Server.lock, while holding the %s", c.pos(call.Pos()), fnDisplay(f), fnDisplay(g), lkName(li.at[in])))
+		})
+	}
+	r.check(n > 0 && len(bad) == 0, rule, "Server.lock", "", fmt.Sprintf("%d functions that take the lock call no function that takes it again", n), "%s: the lock is not reentrant; with a Shutdown that asks for the write lock between the two acquisitions the reader waits for the writer and the writer for the reader - the read loop and Shutdown hang", strings.Join(uniqStrings(bad), "; "))
+}
